@@ -152,15 +152,71 @@ def leg_typed_update(ns, res, spec):
         shutil.rmtree(d, ignore_errors=True)
 
 
+# ---------------------------------------------------------------------------------------------------------------
+# JS: arrays hold values that JSON cannot carry (NaN, Infinity, undefined, Date, BigInt): UPDATE leaves every unassigned field as it is
+
+def leg_js_values(res, spec):
+    import json
+    from ..js import bridge
+    node = bridge.Node.start()
+    if node is None:
+        res.notes.append('js values leg: unavailable (no node)')
+        return
+    rng = random.Random(spec['seed'] * 104729 + spec['i'])
+    odd = [{'__js__': 'NaN'}, {'__js__': 'Infinity'}, {'__js__': '-Infinity'}, {'__js__': 'undefined'}, {'__js__': 'date', 'v': '2020-02-03T04:05:06.000Z'}, {'__js__': 'bigint', 'v': '12345678901234567890'},
+           None, 5, 'x', True, [1, {'__js__': 'NaN'}], '\ufeffbom', 0.5]
+    try:
+        reqs, metas = [], []
+        for n in range(spec['n']):
+            w = rng.randrange(2, 5)
+            A = [[rng.choice(odd) for _ in range(w)] for _ in range(rng.randrange(1, 6))]
+            B = [[rng.choice(['k', 'x', 5]), rng.choice(odd)] for _ in range(rng.randrange(1, 4))]
+            j = rng.randrange(w)
+            kind = rng.choice(['plain', 'where', 'join', 'none-match'])
+            q = {'plain': 'update a%d = "U"' % (j + 1), 'where': 'update a%d = "U" where NR %% 2 == 1' % (j + 1), 'join': 'update a%d = "U" join b on a1 == b1' % (j + 1), 'none-match': 'update a%d = "U" where NR > 100' % (j + 1)}[kind]
+            reqs.append({'query': q, 'input': A, 'join': B if kind == 'join' else None, 'input_cols': None, 'join_cols': None, 'revive': True})
+            metas.append((A, B, j, kind, q))
+        outs = node.call({'op': 'query_batch', 'cases': reqs})['results']
+        for (A, B, j, kind, q), o in zip(metas, outs):
+            res.evaluations += 1
+            res.count('js_value_update_runs')
+            res.nontrivial('js-values-update', q, json.dumps(A))
+            case = {'leg': 'js-values-update', 'query_text': q, 'A': A, 'B': B, 'engine': 'js'}
+            if kind == 'join' and len(set(json.dumps(r[0]) for r in B)) != len(B):
+                if o['error'] is None and any(sum(1 for b in B if b[0] == a[0] and not isinstance(a[0], dict)) > 1 for a in A):
+                    pass
+                if o['error'] is not None:
+                    continue          # several matches for one key: UPDATE refuses, legitimately
+            if o['error'] is not None:
+                res.violation('js:update-over-non-json-values-failed', '[js] %s over %s raised %r' % (q, json.dumps(A), o['error']), case)
+                continue
+            exp = []
+            for i, r in enumerate(A):
+                hit = kind == 'plain' or (kind == 'where' and (i + 1) % 2 == 1) or (kind == 'join' and not isinstance(r[0], (dict, list)) and r[0] is not None and any(b[0] == r[0] and type(b[0]) is type(r[0]) for b in B))
+                exp.append([('U' if (hit and c == j) else v) for c, v in enumerate(r)])
+            if kind == 'join':
+                # only the untouched fields are compared there (loose key equality is the language's business)
+                ok = len(o['out']) == len(A) and all(all(g[c] == r[c] for c in range(len(r)) if c != j) for g, r in zip(o['out'], A))
+            else:
+                ok = o['out'] == exp
+            if not ok or not o['input_unchanged']:
+                res.violation('js:update-changed-unassigned-fields-of-non-json-values', '[js] %s over %s -> %s ; expected %s (input unchanged: %s)' % (q, json.dumps(A), json.dumps(o['out']), json.dumps(exp), o['input_unchanged']), case)
+        res.sample({'leg': 'js-values-update', 'values': [json.dumps(v) for v in odd[:6]], 'runs': len(reqs)})
+    finally:
+        node.close()
+
+
 def plan(tier, seed):
     k = NSHARDS[tier]
-    return [{'k': k, 'i': i, 'n': CASES[tier] // k} for i in range(k)] + [{'kind': 'typed-update', 'i': i, 'n': 150 if tier == 'quick' else 2000} for i in range(2 if tier == 'quick' else 6)]
+    return [{'k': k, 'i': i, 'n': CASES[tier] // k} for i in range(k)] + [{'kind': 'typed-update', 'i': i, 'n': 150 if tier == 'quick' else 2000} for i in range(2 if tier == 'quick' else 6)] + [{'kind': 'js-values', 'i': 0, 'n': 300 if tier == 'quick' else 4000}]
 
 
 def run_shard(spec, res):
     ns = env.import_rbql()
     if spec.get('kind') == 'typed-update':
         return leg_typed_update(ns, res, spec)
+    if spec.get('kind') == 'js-values':
+        return leg_js_values(res, spec)
     rng = random.Random(spec['seed'] * 49979687 + spec['i'])
     js = common.JsLeg(res, PROPERTY, classify_js)
     try:
@@ -200,8 +256,8 @@ def run_shard(spec, res):
 def summarize(tier, seed, m):
     shapes = sorted(k[6:] for k in m['counters'] if k.startswith('shape:'))
     return {
-        'rule': 'UPDATE [SET] lists of 1-3 assignments with targets aN / a[N] / a.name / a["name"], swaps and cycles (a1 = a2, a2 = a3, a3 = a1), right-hand sides from the typed vocabulary incl. NU, NR and b-fields, WHERE true / false / partial, INNER and LEFT JOIN with 0 / 1 / 2 partners, ragged tables with the target beyond a short record; systematic sweep over the 16 combinations of {where, join, cycle, beyond}. a typed leg: ten UPDATE shapes (fractional results into an integer column, swaps between int and float columns, NU * 1.5, a number into a bool column, a string into a numeric column and back, None, products beyond 2**32, WHERE on typed cells) over dataframes with int64 / int8 / float64 / float32 / bool / object columns through query_pandas_dataframe and over a sqlite table through query_sqlite_to_csv - every assigned field must hold the right-hand side value; distinct_nontrivial = distinct (query, tables) that change at least one cell or must fail.',
-        'required': ['typed_update_runs:pandas', 'typed_update_runs:sqlite', 'py_cases', 'row_diff_checks', 'rows_with_changes', 'predicted_missing_field_errors', 'js_cases'],
+        'rule': 'UPDATE [SET] lists of 1-3 assignments with targets aN / a[N] / a.name / a["name"], swaps and cycles (a1 = a2, a2 = a3, a3 = a1), right-hand sides from the typed vocabulary incl. NU, NR and b-fields, WHERE true / false / partial, INNER and LEFT JOIN with 0 / 1 / 2 partners, ragged tables with the target beyond a short record; systematic sweep over the 16 combinations of {where, join, cycle, beyond}. a typed leg: ten UPDATE shapes (fractional results into an integer column, swaps between int and float columns, NU * 1.5, a number into a bool column, a string into a numeric column and back, None, products beyond 2**32, WHERE on typed cells) over dataframes with int64 / int8 / float64 / float32 / bool / object columns through query_pandas_dataframe and over a sqlite table through query_sqlite_to_csv - every assigned field must hold the right-hand side value; a JS values leg: arrays holding NaN, Infinity, undefined, Date, BigInt, nested arrays and a BOM-led string under plain / filtered / joined / never-matching UPDATEs - every unassigned field and every non-matching record comes out as it went in, the arrays of the caller stay as they were; distinct_nontrivial = distinct (query, tables) that change at least one cell or must fail.',
+        'required': ['js_value_update_runs', 'typed_update_runs:pandas', 'typed_update_runs:sqlite', 'py_cases', 'row_diff_checks', 'rows_with_changes', 'predicted_missing_field_errors', 'js_cases'],
         'extra': {'shapes_seen': shapes},
         'assumptions': ['rv/model/refsem.py _run_update is the UPDATE semantics of the statement'],
     }
